@@ -2,11 +2,6 @@
 // templates of the working tree (header-only, compiled here under ASan+UBSan) driven by a counting,
 // failing MemoryManager.  Same request lines as lean/Driver/C19.lean; one reply line per request:
 //     <ok|oom|ub> reqs=<allocation requests> live=<outstanding blocks> bad=<double/foreign frees> | <contents>
-#include <xalanc/Include/PlatformDefinitions.hpp>
-#include <xalanc/Include/XalanMemoryManagement.hpp>
-#include <xalanc/Include/XalanVector.hpp>
-#include <xalanc/Include/XalanList.hpp>
-#include <xercesc/framework/MemoryManager.hpp>
 
 #include <fcntl.h>
 #include <sys/wait.h>
@@ -21,11 +16,33 @@
 #include <string>
 #include <vector>
 
-// harness-only peek at m_firstFreeBlock / m_nextFreeBlock (all standard headers are already included above)
-#include <xalanc/PlatformSupport/ArenaBlockBase.hpp>
+
+#include <algorithm>
+#include <cassert>
+#include <cstddef>
+#include <functional>
+#include <iterator>
+#include <new>
+#include <stdexcept>
+#include <utility>
+#include <memory>
+#include <limits>
+#include <cstring>
+// harness-only: the templates are compiled with their private/protected members visible, so that the replies can show the
+// internal state (free lists, block lists).  All standard headers are included above, before the redefinition.
 #define private public
-#include <xalanc/PlatformSupport/ReusableArenaBlock.hpp>
+#define protected public
+#include <xalanc/Include/PlatformDefinitions.hpp>
+#include <xalanc/Include/XalanMemoryManagement.hpp>
+#include <xalanc/Include/XalanVector.hpp>
+#include <xalanc/Include/XalanList.hpp>
 #include <xalanc/Include/XalanDeque.hpp>
+#include <xalanc/PlatformSupport/ArenaBlockBase.hpp>
+#include <xalanc/PlatformSupport/ReusableArenaBlock.hpp>
+#include <xalanc/PlatformSupport/ArenaAllocator.hpp>
+#include <xalanc/PlatformSupport/ReusableArenaAllocator.hpp>
+#include <xercesc/framework/MemoryManager.hpp>
+#undef protected
 #undef private
 
 struct Refused {};
@@ -109,6 +126,7 @@ struct PeekList : public BList
 typedef ReusableArenaBlock<Boxed, unsigned short> RBlock;
 typedef XalanDeque<long> LDeque;
 typedef XalanVector<Boxed> BVec;
+typedef ReusableArenaAllocator<Boxed> RAlloc;
 
 struct PeekBlock : public RBlock
 {
@@ -124,6 +142,8 @@ struct State
     std::vector<bool> isObj;
     LDeque* deque = 0;
     BVec* bvec = 0;
+    RAlloc* ra = 0;
+    std::vector<Boxed*> raObjs;          // objects in creation order (0 = destroyed)
     FaultManager* fm = 0;
     BList* list = 0;
     LVec* vec = 0;
@@ -138,6 +158,7 @@ struct State
         arena = 0; isObj.clear();
         deque = 0;
         bvec = new BVec(*fm);
+        ra = 0; raObjs.clear();
     }
 };
 
@@ -163,6 +184,27 @@ static std::string showVec(State& s)
     std::ostringstream o;
     o << s.vec->size() << " " << s.vec->capacity() << " :";
     for (size_t i = 0; i < s.vec->size(); ++i) o << " " << (*s.vec)[i];
+    return o.str();
+}
+
+static std::string showRA(State& s)
+{
+    std::ostringstream o;
+    // iterate the block list without begin()/end() side effects: only when the list has a head
+    RAlloc::ArenaBlockListType& bl = s.ra->m_blocks;
+    if (bl.m_listHead != 0)
+        for (RAlloc::ArenaBlockListType::iterator i = bl.begin(); i != bl.end(); ++i)
+        {
+            o << "[";
+            Boxed* base = (*i)->m_objectBlock;
+            for (size_t k = 0; k < (*i)->m_blockSize; ++k)
+            {
+                bool alive = false;
+                for (size_t j = 0; j < s.raObjs.size(); ++j) if (s.raObjs[j] == base + k) alive = true;
+                if (alive) o << "o" << base[k].v << " "; else o << "- ";
+            }
+            o << "] ";
+        }
     return o.str();
 }
 
@@ -344,6 +386,43 @@ int main()
                 if (out == "ub") dead = true;
                 std::cout << tail(s, out, showVec(s)) << "\n";
             }
+            else if (a == "ra")
+            {
+                if (b == "new") { s.ra = new RAlloc(*s.fm, (unsigned short)x); s.raObjs.clear(); }
+                else if (s.ra == 0) { std::cout << "bad\n"; continue; }
+                else if (b == "create")
+                {
+                    Boxed* p = s.ra->allocateBlock();
+                    new (p) Boxed(x, *s.fm);                     // may throw: slot stays uncommitted
+                    s.ra->commitAllocation(p);
+                    s.raObjs.push_back(p);
+                }
+                else if (b == "destroy")
+                {
+                    if (x < 0 || size_t(x) >= s.raObjs.size() || s.raObjs[size_t(x)] == 0) out = "ub";
+                    else
+                    {
+                        Boxed* p = s.raObjs[size_t(x)];
+                        s.raObjs[size_t(x)] = 0;
+                        // the manager refuses a request made here by throwing: destroyObject runs under destructors in the library
+                        if (!s.ra->destroyObject(p)) out = "ub";
+                    }
+                }
+                else if (b == "free")
+                {
+                    RAlloc* r = s.ra; FaultManager* fm = s.fm;
+                    if (!survives([r, fm]() { long b0 = fm->bad; delete r; if (fm->bad != b0) _exit(9); })) out = "ub";
+                    else
+                    {
+                        delete s.ra; s.ra = 0; s.raObjs.clear();
+                        std::cout << tail(s, out, "destroyed") << "\n";
+                        continue;
+                    }
+                }
+                else out = "bad";
+                if (out == "ub") dead = true;
+                std::cout << tail(s, out, showRA(s)) << "\n";
+            }
             else if (a == "bv")
             {
                 long y = 0; in >> y;
@@ -438,7 +517,7 @@ int main()
         }
         catch (const Refused&)
         {
-            std::cout << tail(s, "oom", a == "l" ? showList(s) : a == "a" ? (s.arena ? showArena(s, false) : std::string("none")) : a == "d" ? showDeque(s) : a == "bv" ? showBVec(s) : showVec(s)) << "\n";
+            std::cout << tail(s, "oom", a == "l" ? showList(s) : a == "a" ? (s.arena ? showArena(s, false) : std::string("none")) : a == "d" ? showDeque(s) : a == "bv" ? showBVec(s) : a == "ra" ? (s.ra ? showRA(s) : std::string("")) : showVec(s)) << "\n";
         }
     }
     return 0;
